@@ -79,6 +79,9 @@ TreesOfL(ty, d, L) ==
 TreesOf(ty, d) == TreesOfL(ty, d, AllForms)
 \* the trees in which all leaves of one type have the same form (every operator structure still occurs)
 UniformTreesOf(ty, d) == UNION {TreesOfL(ty, d, [int |-> {f}, bool |-> {g}, str |-> {"lit"}]) : f \in AllForms.int, g \in AllForms.bool}
+\* a smaller selection for the quick tier: 3 of the 6 (int form, bool form) pairs; every form still occurs
+Uniform3TreesOf(ty, d) == UNION {TreesOfL(ty, d, [int |-> {p[1]}, bool |-> {p[2]}, str |-> {"lit"}]) :
+                                    p \in {<<"var", "var">>, <<"lit", "lit">>, <<"neglit", "lit">>}}
 Types == {"int", "bool", "str"}
 
 RECURSIVE Depth(_)
